@@ -79,6 +79,29 @@ func r15_9(c *Ctx, r *Report) {
 					return x, true
 				}
 				if rc, f, ok := getterField(c, val); ok {
+					// the number of a listed month, the day number of a listed day (a cursor walk may test them)
+					if f == "SolarMonth.month" || f == "SolarMonth.year" {
+						if s, ok := strOf(fr, rc); ok {
+							var y, m int64
+							if _, err := fmt.Sscanf(s, "month %d-%d", &y, &m); err == nil {
+								if f == "SolarMonth.year" {
+									return y, true
+								}
+								return m, true
+							}
+						}
+					}
+					if f == "Solar.day" && u.fn == "calendar.(*SolarMonth).GetDays" {
+						if s, ok := strOf(fr, rc); ok {
+							var k int64
+							if _, err := fmt.Sscanf(s, "day+%d", &k); err == nil {
+								if v == 21 && k >= 4 {
+									return k + 11, true // October 1582: the day after the 4th is the 15th
+								}
+								return k + 1, true
+							}
+						}
+					}
 					if f == "Solar.month" {
 						// the month of a listed day, for the in-month views of a week
 						var k int64
